@@ -955,6 +955,21 @@ func (x *Exec) binop(st *State, fr *Frame, in *ssa.BinOp) *Val {
 		}
 	}
 	res, needRange, divisor, ok := m.arith(in.Op, a.S, bs, ii, bi)
+	if !ok && !m.BV {
+		// bit operations and variable shifts on mathematical integers: an uninterpreted result of
+		// the operand type (nothing is known about it beyond its range) - what depends on its
+		// value becomes an undischarged obligation of that function instead of an engine error
+		r := st.freshVal("bitop."+in.Name(), in.Type())
+		st.assume(m.inRange(r.S, ii))
+		switch in.Op {
+		case token.AND:
+			// for non-negative operands the result is bounded by both
+			st.assume(tm(SBool, "(=> (and (>= %s 0) (>= %s 0)) (and (>= %s 0) (<= %s %s) (<= %s %s)))", a.S.S, bs.S, r.S.S, r.S.S, a.S.S, r.S.S, bs.S))
+		case token.OR:
+			st.assume(tm(SBool, "(=> (and (>= %s 0) (>= %s 0)) (and (>= %s %s) (>= %s %s)))", a.S.S, bs.S, r.S.S, a.S.S, r.S.S, bs.S))
+		}
+		return r
+	}
 	if !ok {
 		engineErr("operator %s is not supported in mode %s (%s: %s)", in.Op, m, fr.fn, in)
 	}
